@@ -34,9 +34,10 @@ TRUSTED = [
     "Model/BcCache.lean: hand transcription of Bucket.load_bytecode/write_bytecode, of BaseLoader.load's use of the bucket and "
     "of the directory effects of dump_bytecode's statements; the handler classes, statement order and step lists are read by "
     "translate/bccache_sites.py (Python ast) on every run, the rest is tied by this correspondence run",
-    "pickle.load / marshal.load are parameters: total, raise only {EOFError, UnpicklingError, ValueError} resp. {EOFError, "
-    "ValueError, TypeError}, round-trip what dump wrote (validated on every truncation of real entries; on single-byte "
-    "damage CPython's marshal also raises SystemError/MemoryError, crashes or hangs: counted as outside the contract)",
+    "pickle.load / marshal.load are parameters: total, raise only {EOFError, UnpicklingError, ValueError, TypeError} resp. "
+    "{EOFError, ValueError, TypeError}, round-trip what dump wrote (validated on every truncation of real entries; on "
+    "single-byte damage CPython's pickle also raises MemoryError and its marshal SystemError/MemoryError, segfaults or hangs: "
+    "such cases are counted as outside the contract and not judged)",
     "SHA-1 of source / of name|filename injective; os.replace atomic; NamedTemporaryFile returns a fresh name",
     "the exception-class table Model.mroOf (compared with the interpreter's __mro__ on every run)",
 ]
@@ -52,28 +53,36 @@ CLAIM = dict(
               "statement order and write-path step list are re-read from bccache.py on every run + differential runs on the "
               "real classes (every truncation offset, byte damage, crash after every write-path step in a forked child, "
               "injected exceptions, exhaustive operation histories, option pairs sharing a directory)",
-    text="Theorems (Props/C27.lean): load_total_partial - for every byte string, bucket checksum and decoders within their "
-         "contracts Bucket.load_bytecode ends as miss or hit, or the exception is the one pickle.load raised and the source has no "
-         "covering handler around that call (true today: F10b, known finding; the disjunct vanishes once the call is guarded: "
-         "load_total_of_guarded); marshal_site_guarded and unguarded_sites_known re-prove from the source that no other decoder call "
-         "is unguarded; load_sound - load(write(ck, code)) is a hit with exactly code iff ck is the current source's checksum, any "
+    text="Theorems (Props/C27.lean): load_total - whatever the magic, for every byte string, bucket checksum and decoders within "
+         "their contracts Bucket.load_bytecode with the handlers as they are in the source ends as miss or hit and raises nothing "
+         "(from load_total_of_guarded; decoder_sites_guarded and no_unguarded_sites re-prove from the source on every run that each "
+         "decoder call is under a handler covering its exception set, load_shape the statement order); "
+         "load_sound - load(write(ck, code)) is a hit with exactly code iff ck is the current source's checksum, any "
          "other checksum a miss; foreign_magic_miss, short_entry_miss; fs_fault_safe - an exception at any step of dump_bytecode leaves the old entry, no temporary and propagates unless it is an OSError from os.replace; fs_crash_safe - after every prefix of dump_bytecode's "
          "operations (read from the source: temporary beside the entry, writes, close, os.replace), from every prior directory, the "
          "entry's name holds its previous content or the complete new entry, nothing else but the temporary changes and the "
          "temporary's name differs from the entry's; memcache_errors - with ignore_memcache_errors a failing client is a miss, "
          "without it the error propagates, values go to load_bytecode unchanged; history_fresh / history_fresh_single_cfg - for every "
          "history of loads, source changes, clears and lost entries through configurations that compile alike, every load executes "
-         "compile(current source) (checksum injective, decoders round-trip). Sharing a cache between configurations that compile "
+         "compile(current source) (checksum injective, decoders round-trip); leftover_tmp_never_loaded / leftover_tmp_not_matched_by_clear / "
+         "entry_matched_by_clear - a temporary left by a crash is never opened as an entry (any pattern, keys of equal length) and "
+         "with the default pattern is not matched by clear()'s glob, complete entries are. Sharing a cache between configurations that compile "
          "differently is NOT covered (key_ignores_configuration; F10a, known finding, negation witness in Findings/F10a.lean). Tie: "
          "Gen/BcCacheSites.lean regenerated each run; Bucket on every truncation offset of real entries, all byte values in the "
-         "magic+checksum region, sampled damage in the marshal region (forked), stale/other-source/foreign-magic entries; crash "
+         "magic+checksum region of one entry (sampled values on the others), sampled damage in the marshal region (forked), stale/other-source/foreign-magic entries; crash "
          "after each of the write path's steps in a forked child and injected OSError/KeyboardInterrupt at each step, directory "
          "compared with the model and re-rendered through a fresh Environment; every history of length <=4 (quick) / <=5 "
          "(thorough) over get/modify/clear/new-environment/3 kinds of truncation on FileSystemBytecodeCache and over a fake "
-         "memcache client (ok/get fails/set fails/truncates, ignore on/off); 7 option pairs sharing a directory.",
+         "memcache client (ok/get fails/set fails/truncates, ignore on/off), where source changes include edits of the line-terminator "
+         "structure only (final newline, \\n<->\\r\\n/\\r/the 8 other str.splitlines() boundaries), trailing blanks, one character, "
+         "case, line order, with keep_trailing_newline on and off, judged against a cache-less compile; the injectivity hypothesis on "
+         "the checksum is validated on these edit classes: load_shape re-proves that get_source_checksum is SHA-1 of the whole "
+         "unmodified source, and every pair of ~32 such variants of 6 sources must have distinct checksums (C27:checksum:collision); "
+         "7 option pairs sharing a directory.",
     note="Trusted: Lean kernel; translator; hand model tied by correspondence; decoder contracts, SHA-1 injectivity, rename "
-         "atomicity assumed. Partial: load_total holds only up to the unguarded pickle.load (F10b); freshness across different "
-         "configurations is false (F10a). Exceptions injected into the write path propagate by design (docstring of "
+         "atomicity assumed. Outside the decoder contract (not judged): MemoryError / SystemError from pickle or marshal on damaged "
+         "bytes, and CPython crashing or hanging in marshal.load. Freshness across different configurations is false (F10a, known "
+         "finding). F10b (unguarded pickle.load) is fixed in b3991f5; every truncation offset and byte damage is still probed. Exceptions injected into the write path propagate by design (docstring of "
          "BytecodeCache.dump_bytecode) and are compared with the model, not judged.",
     design_ref="§5 C27",
 )
@@ -233,10 +242,11 @@ def run_unit(ctx, res, jinja2, stats):
             if mg != u.magic:
                 add("foreign-magic", f"src{si}:{label}", mg + data[M:], ck, code)
         # single-byte damage: header and checksum region in process
-        vals = range(256) if not ctx.quick else None
+        vals = range(256) if (not ctx.quick and si == 0) else None     # thorough: every value, on the first entry
+        extra = 3 if ctx.quick else 16
         for off in range(pk_end):
             choices = vals if vals is not None else sorted({data[off] ^ m for m in (0x01, 0x20, 0x80, 0xFF)} |
-                                                            {rng.randrange(256) for _ in range(3)})
+                                                            {rng.randrange(256) for _ in range(extra)})
             for v in choices:
                 if v != data[off]:
                     add("corrupted", f"src{si}@{off}={v}", data[:off] + bytes([v]) + data[off + 1:], ck, code)
@@ -538,6 +548,13 @@ def run_write_path(ctx, res, jinja2, root, stats):
                 res.violate("C27:write-path:crash:model-mismatch",
                             f"process death after {k} operations of dump_bytecode ({ev}), prior {prior}: directory {got_c}, model {want}",
                             replay, no_input=not bad)
+            import fnmatch
+            for fn in tmps:
+                if fnmatch.fnmatch(fn[2:], cache.pattern % ("*",)) or not fnmatch.fnmatch(entry, cache.pattern % ("*",)):
+                    res.violate("C27:write-path:tmp-matches-clear-pattern",
+                                f"leftover temporary {fn[2:]} matches clear()'s pattern {cache.pattern % ('*',)} (theorem "
+                                "leftover_tmp_not_matched_by_clear says it does not)", replay, no_input=True)
+                stats["leftover_temporaries_seen"] = stats.get("leftover_temporaries_seen", 0) + 1
             if any(fn[2:] == entry for fn in tmps):
                 res.violate("C27:write-path:tmp-name", "the temporary file has the entry's own name", replay)
             render_ok(d, f"a crash after {k} write-path operations (prior entry: {prior})", replay)
@@ -623,11 +640,88 @@ def offset_for(cls, length, magic_len, rng):
     return rng.randrange(pk_end, max(pk_end + 1, length))
 
 
+SEPS = ["\x0b", "\x0c", "\x1c", "\x1d", "\x1e", "\x85", "\u2028", "\u2029"]      # str.splitlines() boundaries the lexer treats as data
+EDITS = ["final-nl", "crlf", "cr"] + [f"sep:{i}" for i in range(len(SEPS))] + ["trailing-ws", "one-char", "case", "reorder"]
+
+
+class Doc:
+    """a template source as lines + the separators between them, so that edits can change ONLY the line-terminator
+    structure (final newline, \n <-> \r\n / \r / a Unicode line boundary), or one small detail elsewhere; every edit is a
+    toggle or a cycle, i.e. always changes the text"""
+
+    def __init__(self):
+        self.v = 1
+        self.breaks = ["\n", "\n", "\n"]
+        self.final = True
+        self.flags = set()
+
+    def text(self):
+        lines = [f"V{self.v} {{{{ x }}}}", "second {{ x }}|" + (" " if "trailing-ws" in self.flags else ""),
+                 "third line".swapcase() if "case" in self.flags else "third line",
+                 "tail " + "a" * 300 + ("b" if "one-char" in self.flags else "a") + "a" * 300]
+        if "reorder" in self.flags:
+            lines[1], lines[2] = lines[2], lines[1]
+        return lines[0] + self.breaks[0] + lines[1] + self.breaks[1] + lines[2] + self.breaks[2] + lines[3] + ("\n" if self.final else "")
+
+    def edit(self, kind):
+        if kind == "modify":
+            self.v += 1
+        elif kind == "final-nl":
+            self.final = not self.final
+        elif kind == "crlf":
+            self.breaks[0] = "\n" if self.breaks[0] == "\r\n" else "\r\n"
+        elif kind == "cr":
+            self.breaks[0] = "\n" if self.breaks[0] == "\r" else "\r"
+        elif kind.startswith("sep:"):
+            sp = SEPS[int(kind[4:])]
+            self.breaks[1] = "\n" if self.breaks[1] == sp else sp
+        elif kind == "sep-cycle":
+            cyc = ["\n"] + SEPS
+            self.breaks[1] = cyc[(cyc.index(self.breaks[1]) + 1) % len(cyc)]
+        else:
+            self.flags ^= {kind}
+
+
+def plan_history(ops, ignore):
+    """-> (requests for the Lean model, source text in force after each operation, id -> text); a source is identified by
+    its text, so an edit that restores an earlier text names the earlier version again"""
+    doc = Doc()
+    ids = {doc.text(): 1}
+    out, texts = [], []
+    for op in ops:
+        if op[0] == "get":
+            out.append([Atom("load"), 1, 0])
+        elif op[0] == "mcget":
+            cl = Atom(op[1]) if op[1] != "truncates" else [Atom("truncates"), op[2]]
+            out.append([Atom("mcload"), 1, 0, ignore, cl])
+        elif op[0] in ("modify", "edit"):
+            doc.edit("modify" if op[0] == "modify" else op[1])
+            out.append([Atom("modify"), 0, ids.setdefault(doc.text(), len(ids) + 1)])
+        elif op[0] == "clear":
+            out.append([Atom("clear")])
+        elif op[0] == "newenv":
+            out.append([Atom("newenv")])
+        elif op[0] == "trunc":
+            out.append([Atom("truncate"), 0, op[1]])
+        texts.append(doc.text())
+    return out, texts, {v: k for k, v in ids.items()}
+
+
+_FRESH = {}
+
+
+def fresh_render(jinja2, text, ktn):
+    """what compiling the source now, without any cache, renders (the stale-code oracle's reference)"""
+    k = (text, ktn)
+    if k not in _FRESH:
+        _FRESH[k] = jinja2.Environment(keep_trailing_newline=ktn).from_string(text).render(x="<")
+    return _FRESH[k]
+
+
 class World:
-    def __init__(self, jinja2, backend, ignore, root, rng):
-        self.j, self.backend, self.rng = jinja2, backend, rng
-        self.version = 1
-        self.mapping = {NAME: self.src()}
+    def __init__(self, jinja2, backend, ignore, root, rng, ktn=True):
+        self.j, self.backend, self.rng, self.ktn = jinja2, backend, rng, ktn
+        self.mapping = {NAME: Doc().text()}
         self.magic_len = len(jinja2.bccache.bc_magic)
         if backend == "fs":
             self.dir = tempfile.mkdtemp(dir=root)
@@ -637,39 +731,29 @@ class World:
             self.bcc = jinja2.MemcachedBytecodeCache(self.client, ignore_memcache_errors=ignore)
         self.newenv()
 
-    def src(self):
-        return f"V{self.version}:{{{{ x }}}}"
-
-    def newenv(self, cfg=1):
+    def newenv(self):
         self.env = self.j.Environment(loader=self.j.DictLoader(self.mapping), bytecode_cache=self.bcc, cache_size=0,
-                                      autoescape=(cfg == 2))
+                                      keep_trailing_newline=self.ktn)
 
     def get(self, mode="ok", cut=None):
         if self.backend == "mc":
             self.client.mode = mode
             self.client.cut = (lambda n: offset_for(cut, n, self.magic_len, self.rng)) if cut is not None else None
         try:
-            out = self.env.get_template(NAME).render(x="<")
+            return ["served", self.env.get_template(NAME).render(x="<")]
         except BaseException as e:  # noqa
             return ["raised"] + mro(e)
         finally:
             if self.backend == "mc":
                 self.client.mode = "ok"
-        # "V<v>:<" compiled without autoescape (configuration 1), "V<v>:&lt;" with (2)
-        if out.startswith("V") and out.endswith(":<"):
-            return ["served", 100 + int(out[1:-2])]
-        if out.startswith("V") and out.endswith(":&lt;"):
-            return ["served", 200 + int(out[1:-5])]
-        return ["served", out]
 
-    def apply(self, op):
+    def apply(self, op, text_after=None):
         if op[0] == "get":
             return self.get()
         if op[0] == "mcget":
             return self.get(op[1], op[2])
-        if op[0] == "modify":
-            self.version += 1
-            self.mapping[NAME] = self.src()
+        if op[0] in ("modify", "edit"):
+            self.mapping[NAME] = text_after
         elif op[0] == "clear":
             self.bcc.clear()
         elif op[0] == "newenv":
@@ -687,29 +771,28 @@ class World:
             shutil.rmtree(self.dir, ignore_errors=True)
 
 
-def enc_hist(ops, ignore):
-    out, ver = [], 1
-    for op in ops:
-        if op[0] == "get":
-            out.append([Atom("load"), 1, 0])
-        elif op[0] == "mcget":
-            cl = Atom(op[1]) if op[1] != "truncates" else [Atom("truncates"), op[2]]
-            out.append([Atom("mcload"), 1, 0, ignore, cl])
-        elif op[0] == "modify":
-            ver += 1
-            out.append([Atom("modify"), 0, ver])
-        elif op[0] == "clear":
-            out.append([Atom("clear")])
-        elif op[0] == "newenv":
-            out.append([Atom("newenv")])
-        elif op[0] == "trunc":
-            out.append([Atom("truncate"), 0, op[1]])
+FS_OPS = [("get",), ("modify",), ("clear",), ("newenv",), ("trunc", 1), ("trunc", 2), ("trunc", 3), ("edit", "final-nl"),
+          ("edit", "sep-cycle")]
+MC_OPS = [("mcget", "ok", None), ("mcget", "getfails", None), ("mcget", "setfails", None), ("mcget", "truncates", 1),
+          ("mcget", "truncates", 2), ("mcget", "truncates", 3), ("modify",), ("newenv",), ("edit", "final-nl"),
+          ("edit", "sep-cycle")]
+
+
+def edit_sweep(get, pairs=True):
+    """histories that change only one or two details of the source between loads: every edit kind alone, and every ordered
+    pair of edit kinds with and without a load between them"""
+    out = [[get, ("edit", k), get] for k in EDITS]
+    for a in (EDITS if pairs else []):
+        for b in EDITS:
+            out.append([get, ("edit", a), get, ("edit", b), get])
+            out.append([get, ("edit", a), ("edit", b), get])
     return out
 
 
-FS_OPS = [("get",), ("modify",), ("clear",), ("newenv",), ("trunc", 1), ("trunc", 2), ("trunc", 3)]
-MC_OPS = [("mcget", "ok", None), ("mcget", "getfails", None), ("mcget", "setfails", None), ("mcget", "truncates", 1),
-          ("mcget", "truncates", 2), ("mcget", "truncates", 3), ("modify",), ("newenv",)]
+def diff_at(a, b, width=24):
+    """the two strings around their first difference"""
+    i = next((k for k, (x, y) in enumerate(zip(a, b)) if x != y), min(len(a), len(b)))
+    return f"at offset {i}: {a[max(0, i - width):i + width]!r} vs {b[max(0, i - width):i + width]!r} (lengths {len(a)}/{len(b)})"
 
 
 def same_out(real, model):
@@ -725,60 +808,150 @@ def run_histories(ctx, res, jinja2, root, stats):
     total, steps = 0, 0
     seen = set()
     dist = {}
+    sweeps = 0
     for backend, alphabet, ignores in (("fs", FS_OPS, [True]), ("mc", MC_OPS, [True, False])):
         hist = []
-        mlen = maxlen if backend == "fs" else maxlen - 1 if ctx.quick else maxlen - 1
+        if ctx.quick and backend == "mc":
+            alphabet = [o for o in alphabet if o[0] != "edit"]      # quick: the memcache histories take the edits from the sweep only
+        mlen = maxlen if backend == "fs" else maxlen - 1
         for n in range(1, mlen + 1):
             for seq in itertools.product(alphabet, repeat=n):
                 if seq[-1][0] in ("get", "mcget") and seq[0][0] != "newenv":
                     hist.append(list(seq))
         rng = ctx.rng("hist", backend)
+        edits = [("edit", k) for k in EDITS]
         for _ in range(ctx.pick(100, 1000)):
-            hist.append([rng.choice(alphabet) for _ in range(rng.randrange(mlen + 1, mlen + 6))] + [alphabet[0]])
+            hist.append([rng.choice(alphabet + edits) for _ in range(rng.randrange(mlen + 1, mlen + 6))] + [alphabet[0]])
+        sweep = edit_sweep(alphabet[0], pairs=not (ctx.quick and backend == "mc"))
+        # (history, keep_trailing_newline): the exhaustive ones with the option on (a final newline is then visible),
+        # the edit sweep with the option on and off
+        runs = [(h, True) for h in hist] + [(h, ktn) for ktn in (True, False) for h in sweep]
+        sweeps += 2 * len(sweep)
         for ignore in ignores:
-            reps = core.driver_batch([[Atom("bc-history"), 1, enc_hist(h, ignore)] for h in hist])
-            for hi, (h, rep) in enumerate(zip(hist, reps)):
-                w = World(jinja2, backend, ignore, root, ctx.rng("hist-offsets", backend, ignore, hi))
+            if not ignore:
+                runs = [(h, True) for h in hist]
+            plans = [plan_history(h, ignore) for h, _ in runs]
+            reps = core.driver_batch([[Atom("bc-history"), 1, pl[0]] for pl in plans])
+            for hi, ((h, ktn), (_, texts, id2text), rep) in enumerate(zip(runs, plans, reps)):
+                w = World(jinja2, backend, ignore, root, ctx.rng("hist-offsets", backend, ignore, hi), ktn)
                 total += 1
-                seen.add((backend, ignore, tuple(h)))
+                seen.add((backend, ignore, ktn, tuple(h)))
+
+                def expected(o):
+                    return ["served", fresh_render(jinja2, id2text[o[1] - 100], ktn)] if o[0] == "served" else o
                 try:
                     for i, (op, pair) in enumerate(zip(h, canon(rep[1]))):
-                        model, spec = pair
-                        real = w.apply(op)
+                        model, spec = expected(pair[0]), expected(pair[1])
+                        real = w.apply(op, texts[i])
                         steps += 1
                         dist[real[0]] = dist.get(real[0], 0) + 1
+                        shown = [o[0] if len(o) == 1 else list(o) for o in h[:i + 1]]
                         replay = {"layer": "history", "backend": backend, "ignore_memcache_errors": ignore,
-                                  "history": [list(o) for o in h[:i + 1]], "offsets_seed": [backend, ignore, hi]}
+                                  "keep_trailing_newline": ktn, "history": [list(o) for o in h[:i + 1]],
+                                  "offsets_seed": [backend, ignore, hi], "source_now": texts[i]}
                         if real != spec and spec[0] == "served":
                             if real[0] == "raised" and real[1] in ("EOFError", "UnpicklingError") and same_out(real, model):
                                 key = "C27:truncated-entry:pickle-unguarded"
                                 what = (f"get_template raises {real[1]} after the cache entry was truncated inside the pickled checksum "
-                                        f"({backend} cache, history {[o[0] if len(o) == 1 else o for o in h[:i + 1]]}); expected a miss and a recompile")
+                                        f"({backend} cache, history {shown}); expected a miss and a recompile")
                             elif real[0] == "raised" and same_out(real, model):
                                 key = None      # a client error that propagates by configuration: model and code agree
                                 if not (backend == "mc" and not ignore and real[1] == "ConnectionError"):
                                     key = f"C27:history:{backend}:raises:{real[1]}"
-                                    what = f"get_template raises {real[1]} in history {h[:i + 1]}"
+                                    what = f"get_template raises {real[1]} in history {shown}"
                             elif real[0] == "served":
                                 key = f"C27:history:{backend}:stale-code"
-                                what = (f"{backend} cache, history {h[:i + 1]}: rendered code {real[1]}, compiling the current source "
-                                        f"gives {spec[1]} (100*configuration+version)")
+                                what = (f"{backend} cache, keep_trailing_newline={ktn}, history {shown}: get_template's output and that of "
+                                        f"a cache-less compile of the current source differ {diff_at(real[1], spec[1])}: code of an "
+                                        "earlier source was served")
                             else:
                                 key = f"C27:history:{backend}:raises:{real[1]}"
-                                what = f"get_template raises {real[1]} in history {h[:i + 1]}"
+                                what = f"get_template raises {real[1]} in history {shown}"
                             if key:
                                 res.violate(key, what, replay)
                         if not same_out(real, model):
                             res.violate(f"C27:history:{backend}:model-mismatch",
-                                        f"{backend} cache (ignore_memcache_errors={ignore}), history {h[:i + 1]}: real {real}, model {model}",
+                                        f"{backend} cache (ignore_memcache_errors={ignore}, keep_trailing_newline={ktn}), history {shown}: "
+                                        f"real {str(real)[:120]}, model {str(model)[:120]}",
                                         replay, no_input=(real == spec or spec[0] != "served"))
                             break
                 finally:
                     w.close()
     stats["histories"] = total
+    stats["history_edit_sweep"] = sweeps
     stats["history_steps"] = steps
     stats["history_outcomes"] = dist
     stats["history_maxlen"] = maxlen
+    return seen
+
+
+# ------------------------------------------------------------------------------------------------------------------
+# (e) the checksum itself: the injectivity hypothesis of history_fresh, probed on edits a normalising hash would merge
+# ------------------------------------------------------------------------------------------------------------------
+
+def checksum_pool():
+    bases = [("foo", "bar"), ("{{ x }}", "{% if x %}y{% endif %}"), ("line one {{ x }}", "Line Two"),
+             ("{% for i in items %}", "{{ i }}{% endfor %}"), ("a" * 400, "b" * 400), ("gr\u00fc\u00df {{ x }}", "\u4e2d {{ x }}")]
+    pools = []
+    for head, tail in bases:
+        vs = []
+        for sp in ["\n", "\r\n", "\r"] + SEPS:
+            vs += [head + sp + tail, head + sp + tail + "\n"]
+        vs += [head + "\n" + tail + "\n\n", head + " \n" + tail, head + "\t\n" + tail, head + "\n" + tail + " ",
+               (head + "\n" + tail).swapcase(), tail + "\n" + head, head + tail, head + "\n\n" + tail,
+               head[:-1] + ("X" if head[-1] != "X" else "Y") + "\n" + tail, head + "\n" + tail + "\r\n"]
+        pools.append(sorted(set(vs)))
+    return pools
+
+
+def run_checksum(ctx, res, jinja2, root, stats):
+    bcs = [jinja2.bccache.BytecodeCache(), jinja2.FileSystemBytecodeCache(root),
+           jinja2.MemcachedBytecodeCache(FakeMemcache())]
+    pairs, collisions = 0, []
+    seen = set()
+    for pool in checksum_pool():
+        sums = [[bc.get_source_checksum(t) for bc in bcs] for t in pool]
+        for a in range(len(pool)):
+            for b in range(a + 1, len(pool)):
+                pairs += 1
+                seen.add((pool[a], pool[b]))
+                if any(x == y for x, y in zip(sums[a], sums[b])):
+                    collisions.append((pool[a], pool[b]))
+    stats["checksum_pairs"] = pairs
+    stats["checksum_collisions"] = len(collisions)
+    concrete = None
+    for a, b in collisions[:50]:
+        # does the collision serve stale code?  load a, change the source to b, load again
+        for ktn in (True, False):
+            for first, second in ((a, b), (b, a)):
+                d = tempfile.mkdtemp(dir=root)
+                mapping = {NAME: first}
+                env = jinja2.Environment(loader=jinja2.DictLoader(mapping), cache_size=0, keep_trailing_newline=ktn,
+                                         bytecode_cache=jinja2.FileSystemBytecodeCache(d))
+                try:
+                    env.get_template(NAME).render(x="<", items=[1])
+                    mapping[NAME] = second
+                    got = env.get_template(NAME).render(x="<", items=[1])
+                    want = jinja2.Environment(keep_trailing_newline=ktn).from_string(second).render(x="<", items=[1])
+                except Exception:  # noqa
+                    continue
+                finally:
+                    shutil.rmtree(d, ignore_errors=True)
+                if got != want and concrete is None:
+                    concrete = (first, second, ktn, got, want)
+    if concrete:
+        first, second, ktn, got, want = concrete
+        res.violate("C27:checksum:collision",
+                    f"get_source_checksum gives the same checksum to the different sources {first[:60]!r} and {second[:60]!r} "
+                    f"({len(collisions)} colliding pairs of {pairs}); with keep_trailing_newline={ktn}, after loading the first and changing "
+                    f"the source to the second get_template renders {got[:60]!r}, a fresh compile {want[:60]!r}",
+                    {"layer": "checksum", "first": first, "second": second, "keep_trailing_newline": ktn})
+    elif collisions:
+        a, b = collisions[0]
+        res.violate("C27:checksum:collision",
+                    f"get_source_checksum gives the same checksum to the different sources {a[:60]!r} and {b[:60]!r} "
+                    f"({len(collisions)} colliding pairs of {pairs}): the injectivity hypothesis of history_fresh does not hold",
+                    {"layer": "checksum", "first": a, "second": b}, no_input=True)
     return seen
 
 
@@ -892,24 +1065,32 @@ def run(ctx, res):
         s3 = run_histories(ctx, res, jinja2, root, stats)
         t.append(time.monotonic())
         s4 = run_shared(ctx, res, jinja2, root, stats)
+        s5 = run_checksum(ctx, res, jinja2, root, stats)
         t.append(time.monotonic())
         stats["section_seconds"] = [round(b - a, 1) for a, b in zip(t, t[1:])]
     finally:
         shutil.rmtree(root, ignore_errors=True)
-    total = stats["unit_cases"] + stats.get("write_path_cases", 0) + stats["histories"] + len(s4)
+    total = stats["unit_cases"] + stats.get("write_path_cases", 0) + stats["histories"] + len(s4) + stats["checksum_pairs"]
     res.coverage.update({
         "evaluations": total,
-        "distinct_nontrivial": len(s1) + len(s2) + len(s3) + len(s4),
-        "rule": ("(a) for 2-3 real cache entries: the intact entry, EVERY truncation offset, every byte value (thorough; 4 masks + 3 "
-                 "random values quick) at every offset of magic and pickled checksum, sampled bit flips in the marshalled code "
+        "distinct_nontrivial": len(s1) + len(s2) + len(s3) + len(s4) + len(s5),
+        "rule": ("(a) for 2-3 real cache entries: the intact entry, EVERY truncation offset, every byte value (thorough, first entry; otherwise 4 "
+                 "masks + 3/16 random values) at every offset of magic and pickled checksum, sampled bit flips in the marshalled code "
                  "(forked: CPython may crash), the older version's entry, another template's entry, 7 foreign magics; non-trivial = "
                  "distinct (kind, entry, offset, value). (b) process death after every prefix of dump_bytecode's operations and "
                  "OSError/KeyboardInterrupt raised at every step, prior entry absent/old. (c) every history of length <= "
                  f"{stats['history_maxlen']} over get/modify/clear/new-environment/truncate-in-magic/-in-checksum/-in-code (file system) and "
                  "length one less over memcache get with client ok/get-fails/set-fails/truncating x3, modify, new-environment x "
-                 "ignore_memcache_errors on/off, ending in a get, plus random longer ones. (d) 7 option pairs + a control, both orders"),
+                 "ignore_memcache_errors on/off, ending in a get, plus random longer ones; 'modify' comes in three kinds (new "
+                 "version text, toggle the final newline, cycle a line break through \\n and the 8 other str.splitlines() "
+                 "boundaries) and an edit sweep (17 edit kinds: final newline, \\n<->\\r\\n, \\n<->\\r, \\n<->each of 8 separators, "
+                 "trailing blank, one character in a 600-character line, case, two lines swapped; alone and in every ordered pair, "
+                 "with and without a load between) runs with keep_trailing_newline on and off; output is compared with a cache-less "
+                 "compile of the current source. (d) 7 option pairs + a control, both orders. (e) get_source_checksum on every pair "
+                 "of ~32 variants (separators, final newlines, blanks, case, order, one character) of 6 two-line sources: distinct "
+                 "sources must have distinct checksums, a collision is replayed end-to-end"),
         "samples": [{"unit": sorted(s1)[len(s1) // 2]} if s1 else {}, {"write_path": sorted(s2, key=str)[len(s2) // 2]} if s2 else {},
-                    {"history": [list(o) for o in sorted(s3, key=str)[len(s3) // 2][2]]} if s3 else {}],
+                    {"history": [list(o) for o in sorted(s3, key=str)[len(s3) // 2][3]]} if s3 else {}],
         "exhaustive": True,
         **stats,
     })
@@ -924,8 +1105,15 @@ def replay(ctx, case):
     root = tempfile.mkdtemp(prefix="jv-c27-")
     try:
         if c.get("layer") == "history":
-            w = World(jinja2, c["backend"], c["ignore_memcache_errors"], root, ctx.rng("hist-offsets", *c["offsets_seed"]))
-            return {"impl": [w.apply(tuple(o)) for o in c["history"]]}
+            w = World(jinja2, c["backend"], c["ignore_memcache_errors"], root, ctx.rng("hist-offsets", *c["offsets_seed"]),
+                      c.get("keep_trailing_newline", True))
+            h = [tuple(o) for o in c["history"]]
+            _, texts, _ = plan_history(h, c["ignore_memcache_errors"])
+            return {"impl": [w.apply(o, tx) for o, tx in zip(h, texts)],
+                    "fresh_compile_of_current_source": fresh_render(jinja2, texts[-1], c.get("keep_trailing_newline", True))}
+        if c.get("layer") == "checksum":
+            bc = jinja2.bccache.BytecodeCache()
+            return {"first": bc.get_source_checksum(c["first"]), "second": bc.get_source_checksum(c["second"])}
         if c.get("layer") == "shared-dir":
             res = core.Result()
             run_shared(ctx, res, jinja2, root, {})
